@@ -20,7 +20,8 @@ IsStateful(ev) == TRUE
 
 (* <<ok, classes, base'>> *)
 V(ev) ==
-  CASE ev.ev = "conc.Base" -> LET k == <<ev.op, ev.arg>> IN << k \notin DOMAIN base, {"base"}, base @@ (k :> ev.out) >>
+  CASE ev.ev = "lib.Unexpected" -> << FALSE, {}, base >>       \* a call that must succeed failed or panicked
+    [] ev.ev = "conc.Base" -> LET k == <<ev.op, ev.arg>> IN << k \notin DOMAIN base, {"base"}, base @@ (k :> ev.out) >>
     [] ev.ev = "conc.Call" -> LET k == <<ev.op, ev.arg>> IN << k \in DOMAIN base /\ base[k] = ev.out, {"call"}, base >>
     [] ev.ev = "conc.Frame" -> << ev.same /\ ev.before = ev.after,
                                   IF ev.obj \in {"priv", "pub", "peer", "spriv", "spub"} THEN {"frame_key"}
